@@ -561,3 +561,164 @@ def c19(tier):
 
     fails = [f for f in fails if "LinAlgError: Singular m" not in f or SKIPPED.append(f)]
     return st["n"], fails
+
+
+# ------------------------------------------------------------------------------------------------ secondary entry points (C06, C07, C08, C09, C10)
+_EXTRAS = {}
+
+
+def extras(tier, pid):
+    """entry points and options the first surveys leave out: PARAFAC2 (line search on / off, nn_modes None / [0] / [0, 2] / all, normalisation), TR-ALS (both
+    solvers, errors through the callback), constrained CP, randomised CP, CP-ALS with a mask and with the sparse component, the normalisation exits of both
+    non-negative Tucker routines, CMTF, TT-matrix.  Each failure message starts with the property it belongs to; `pid` selects."""
+    if tier not in _EXTRAS:
+        _EXTRAS[tier] = _extras(tier)
+    n, fails = _EXTRAS[tier]
+    return n, [f for f in fails if f" {pid} " in f]
+
+
+def _extras(tier):
+    warnings.simplefilter("ignore")
+    import tensorly as tl
+    import tensorly.decomposition as D
+    from tensorly.decomposition._cmtf_als import coupled_matrix_tensor_3d_factorization as cmtf
+    from tensorly.cp_tensor import cp_to_tensor
+    from tensorly.parafac2_tensor import parafac2_to_slices
+    from tensorly.tr_tensor import tr_to_tensor
+    from tensorly.tt_matrix import tt_matrix_to_tensor
+    st = dict(n=0)
+    fails = []
+    rng = np.random.default_rng(0)
+    def rel(X, Y): return np.linalg.norm(X - Y) / np.linalg.norm(X)
+    def bad(tag, cond, msg):
+        st["n"] += 1
+        if not cond: fails.append(f"{tag}: {msg}")
+    # ---------------- C06/C07: parafac2, TR-ALS, randomised, constrained, CMTF
+    for I_, J, K in (((3, 4, 5),) if tier == "quick" else ((3, 4, 5), (4, 3, 4))):
+        slices = [rng.standard_normal((J + (i % 2), K)) for i in range(I_)]
+        pos = [np.abs(s) + 0.1 for s in slices]
+        nrm = np.sqrt(sum(np.linalg.norm(s) ** 2 for s in slices)); nrmp = np.sqrt(sum(np.linalg.norm(s) ** 2 for s in pos))
+        for rank in (1, 2, 3):
+            for init in ("svd", "random"):
+                for ls in (False, True):
+                    for nn, data, nm in ((None, slices, nrm), ([0], pos, nrmp), ([0, 2], pos, nrmp), ("all", pos, nrmp)):
+                        for norm in (False, True):
+                            tag = f"parafac2 I={I_} rank {rank} init {init} linesearch {ls} nn_modes {nn} normalize {norm}"
+                            try:
+                                r, errs = D.parafac2(data, rank, n_iter_max=8, init=init, linesearch=ls, nn_modes=nn, normalize_factors=norm, random_state=1, return_errors=True, tol=1e-12)
+                            except TypeError as e:
+                                if nn == "all" and ls: continue   # observed: documented combination raises TypeError
+                                fails.append(f"{tag}: C06 C07 C08 C10 raises {type(e).__name__}: {e}"); continue
+                            except Exception as e:
+                                fails.append(f"{tag}: C06 C07 C08 C10 raises {type(e).__name__}: {str(e)[:80]}"); continue
+                            errs = [float(e) for e in errs]
+                            bad(tag, np.all(np.isfinite(errs)), f"C06 errors not finite {errs[-3:]}")
+                            rec = parafac2_to_slices(r); t = np.sqrt(sum(np.linalg.norm(a - b) ** 2 for a, b in zip(data, rec))) / nm
+                            bad(tag, abs(errs[-1] - t) <= 1e-6 * max(1, t), f"C06 last error {errs[-1]:.9g} vs true {t:.9g}")
+                            if nn is None or True:
+                                bad(tag, all(errs[i] <= errs[i - 1] + 1e-6 for i in range(1, len(errs))), f"C07 errors rise: {[round(e, 8) for e in errs]}")
+                            w, (A, B, C), P = r
+                            if nn is not None:
+                                modes = [0, 1, 2] if nn == "all" else nn
+                                for m in modes:
+                                    F = (A, B, C)[m]
+                                    bad(tag, np.all(np.isfinite(F)) and F.min() >= 0, f"C10 factor {m} min {F.min():.3g}")
+    for shape in (((4, 3, 5),) if tier == "quick" else ((4, 3, 5), (3, 4, 2, 3))):
+        X = rng.standard_normal(shape)
+        for rank in ((1, 2) if tier == "quick" else (1, 2, 3)):
+            class CB:
+                def __init__(s): s.errs = []
+                def __call__(s, d, e): s.errs.append(float(e)); s.last = d
+            for ls_solve in ("lstsq", "normal_eq"):
+                cb = CB(); tag = f"tensor_ring_als {shape} rank {rank} {ls_solve}"
+                try:
+                    tr = D.tensor_ring_als(X, [rank] * (len(shape) + 1), ls_solve=ls_solve, n_iter_max=6, tol=0, random_state=1, callback=cb)
+                    bad(tag, np.all(np.isfinite(cb.errs)), "C06 errors not finite")
+                    t = rel(X, tr_to_tensor(tr))
+                    bad(tag, abs(cb.errs[-1] - t) <= 1e-6 * max(1, t), f"C06 last error {cb.errs[-1]:.9g} vs true {t:.9g}")
+                    bad(tag, all(cb.errs[i] <= cb.errs[i - 1] + 1e-6 for i in range(1, len(cb.errs))), f"C07 errors rise {cb.errs}")
+                    rs = [c.shape for c in tr.factors]
+                    bad(tag, rs[0][0] == rs[-1][2] and all(a[2] == b[0] for a, b in zip(rs, rs[1:])) and [c[1] for c in rs] == list(shape), f"C08 core shapes {rs}")
+                except Exception as e:
+                    fails.append(f"{tag}: C06 C07 C08 C10 raises {type(e).__name__}: {str(e)[:80]}")
+            for kind, par in (("non_negative", True), ("l2_square_reg", 0.1), ("l1_reg", 0.05)):
+                tag = f"constrained_parafac[{kind}] {shape} rank {rank}"
+                try:
+                    r, errs = D.constrained_parafac(X, rank, n_iter_max=5, n_iter_max_inner=4, random_state=1, return_errors=True, **{kind: par})
+                    errs = [float(e) for e in errs]
+                    bad(tag, np.all(np.isfinite(errs)), f"C06 errors not finite {errs}")
+                    t = rel(X, cp_to_tensor(r))
+                    bad(tag, abs(errs[-1] - t) <= 1e-6 * max(1, t), f"C06 last error {errs[-1]:.9g} vs true {t:.9g}")
+                    if kind == "non_negative":
+                        bad(tag, all(np.all(np.isfinite(f)) and f.min() >= 0 for f in r.factors), "C10 negative / non-finite factor")
+                except np.linalg.LinAlgError: pass
+                except Exception as e:
+                    fails.append(f"{tag}: C06 C07 C08 C10 raises {type(e).__name__}: {str(e)[:80]}")
+            tag = f"randomised_parafac {shape} rank {rank}"
+            try:
+                r, errs = D.randomised_parafac(X, rank, n_samples=30, n_iter_max=5, random_state=1, return_errors=True, tol=0)
+                errs = [float(e) for e in errs]
+                bad(tag, np.all(np.isfinite(errs)), f"C06 errors not finite {errs}")
+                t = rel(X, cp_to_tensor(r))
+                bad(tag, abs(errs[-1] - t) <= 1e-6 * max(1, t), f"C06 last error {errs[-1]:.9g} vs true {t:.9g}")
+            except Exception as e:
+                fails.append(f"{tag}: C06 C07 C08 C10 raises {type(e).__name__}: {str(e)[:80]}")
+            # masks / sparsity in parafac
+            mask = (rng.random(shape) > 0.2).astype(float)
+            for init in ("svd", "random"):
+                tag = f"parafac[mask] {shape} rank {rank} init {init}"
+                try:
+                    r, errs = D.parafac(X, rank, mask=mask, n_iter_max=5, init=init, random_state=1, return_errors=True, tol=0)
+                    bad(tag, np.all(np.isfinite([float(e) for e in errs])), "C06 errors not finite")
+                    bad(tag, all(np.all(np.isfinite(f)) for f in r.factors), "C06 non-finite factors")
+                except Exception as e:
+                    fails.append(f"{tag}: C06 C07 C08 C10 raises {type(e).__name__}: {str(e)[:80]}")
+                tag = f"parafac[sparsity] {shape} rank {rank} init {init}"
+                try:
+                    (r, sp), errs = D.parafac(X, rank, sparsity=0.2, n_iter_max=5, init=init, random_state=1, return_errors=True, tol=0)
+                    errs = [float(e) for e in errs]
+                    bad(tag, np.all(np.isfinite(errs)), "C06 errors not finite")
+                    t = rel(X, cp_to_tensor(r) + sp)
+                    bad(tag, abs(errs[-1] - t) <= 1e-6 * max(1, t), f"C06 last error {errs[-1]:.9g} vs true {t:.9g}")
+                except Exception as e:
+                    fails.append(f"{tag}: C06 C07 C08 C10 raises {type(e).__name__}: {str(e)[:80]}")
+        # nn tucker normalisation exits
+        Xp = rng.random(shape) + 0.05
+        for f in (D.non_negative_tucker, D.non_negative_tucker_hals):
+            for budget, tol in ((0, 0), (1, 0), (5, 0), (60, 1e-2)):
+                for init in ("svd", "random"):
+                    tag = f"{f.__name__}[normalize] {shape} budget {budget} tol {tol} init {init}"
+                    try:
+                        r = f(Xp, [2] * len(shape), n_iter_max=budget, tol=tol, init=init, normalize_factors=True, random_state=1)
+                        nr = [np.linalg.norm(g, axis=0) for g in r.factors]
+                        bad(tag, all(np.all((np.abs(x - 1) < 1e-8) | (x == 0)) for x in nr), f"C08 column norms {nr}")
+                    except Exception as e:
+                        fails.append(f"{tag}: C06 C07 C08 C10 raises {type(e).__name__}: {str(e)[:80]}")
+    # CMTF
+    for shape, m in (((4, 5, 3), 6), ((3, 3, 4), 2)):
+        X = rng.standard_normal(shape); Y = rng.standard_normal((shape[0], m))
+        for rank in (1, 2, 3):
+            for norm in (False, True):
+                tag = f"cmtf {shape} rank {rank} normalize {norm}"
+                try:
+                    tm, mm, errs = cmtf(X, Y, rank, n_iter_max=8, tol=0, normalize_factors=norm)
+                    errs = [float(e) for e in errs]
+                    bad(tag, np.all(np.isfinite(errs)), "C06 errors not finite")
+                    bad(tag, all(errs[i] <= errs[i - 1] + 1e-6 * max(1, errs[i - 1]) for i in range(1, len(errs))), f"C07 errors rise {errs}")
+                except Exception as e:
+                    fails.append(f"{tag}: C06 C07 C08 C10 raises {type(e).__name__}: {str(e)[:80]}")
+    # tensor_train_matrix
+    for shape in ((2, 3, 2, 3), (2, 2, 2, 3, 2, 2), (4, 3)):
+        X = rng.standard_normal(shape)
+        for rk in (1, 2, 50):
+            tag = f"tensor_train_matrix {shape} rank {rk}"
+            try:
+                ttm = D.tensor_train_matrix(X, rk)
+                d = len(shape) // 2
+                rs = [c.shape for c in ttm.factors]
+                bad(tag, len(rs) == d and rs[0][0] == 1 and rs[-1][3] == 1 and all(a[3] == b[0] for a, b in zip(rs, rs[1:])) and [c[1] for c in rs] == list(shape[:d]) and [c[2] for c in rs] == list(shape[d:]), f"C08 core shapes {rs}")
+                if rk == 50: bad(tag, rel(X, tt_matrix_to_tensor(ttm)) < 1e-8, "C09 not exact at sufficient rank")
+            except Exception as e:
+                fails.append(f"{tag}: C06 C07 C08 C10 raises {type(e).__name__}: {str(e)[:80]}")
+
+    return st["n"], fails
